@@ -165,6 +165,7 @@ type Frame struct {
 	lets    map[string]*Val
 	paramV  []*Val
 	defers  []*ssa.Defer
+	frameSpec *frameSpec // parsed assigns/pure clause of the function under contract (root frame only)
 }
 
 type retEdge struct {
@@ -601,6 +602,22 @@ func (x *Exec) execLoopInvariant(fr *Frame, l *loop, spec *LoopSpec, entry []*Ed
 			t := x.evalBool(ce, inv)
 			x.oblige("inv-preserve", name("preserve", i, inv), e.cond, t, l.header.Instrs[0].Pos(), inv.Text, false)
 		}
+		if fr.frameSpec != nil {
+			var keys []string
+			for k := range e.st.heaps {
+				keys = append(keys, k)
+			}
+			sort.Strings(keys)
+			for _, k := range keys {
+				if !modHeaps[k] {
+					continue
+				}
+				if f := x.frameFormula(fr.frameSpec, k, e.st.heaps[k]); f != nil {
+					x.oblige("frame", fmt.Sprintf("%sframe(%s)@loop%d/preserve", fr.prefix, k, l.ordinal), e.cond, f, l.header.Instrs[0].Pos(),
+						"implicit loop invariant: memory that existed at entry is unchanged outside the assigns clause ("+k+")", false)
+				}
+			}
+		}
 		if spec.Decreases != nil && hook.dec0 != nil {
 			m1 := x.coerce(x.eval(ce, spec.Decreases.E), intT).T
 			x.oblige("term", fmt.Sprintf("%sterm@loop%d/decreases", fr.prefix, l.ordinal), e.cond,
@@ -707,6 +724,20 @@ func (x *Exec) execBlock(fr *Frame, b *ssa.BasicBlock, edges []*Edge, env *Env) 
 			for _, inv := range h.spec.Invariants {
 				t := x.evalBool(ce, inv)
 				x.assume(reach, t)
+			}
+			// implicit frame invariant: memory that existed at entry and is not
+			// listed in the assigns clause is unchanged (checked at the back edges)
+			if fr.frameSpec != nil {
+				var keys []string
+				for k := range st.heaps {
+					keys = append(keys, k)
+				}
+				sort.Strings(keys)
+				for _, k := range keys {
+					if f := x.frameFormula(fr.frameSpec, k, st.heaps[k]); f != nil {
+						x.assume(reach, f)
+					}
+				}
 			}
 			if h.spec.Decreases != nil {
 				h.dec0 = x.coerce(x.eval(ce, h.spec.Decreases.E), intT).T
